@@ -94,14 +94,22 @@ impl UCICommand {
             return Err("No position specified!".to_string());
         }
 
+        // A FEN has six fields, or four when the two move counters are left out: it ends where
+        // the move list starts
+        let fen_end = args
+            .iter()
+            .position(|&arg| arg == "moves")
+            .unwrap_or(args.len())
+            .min(7);
+
         let kind = match args[0] {
             "startpos" => PositionKind::StartPos,
             "fen" => {
-                if args.len() < 7 {
+                if fen_end < 5 {
                     return Err("No FEN specified!".to_string());
                 }
                 PositionKind::Fen {
-                    fen: args[1..7].join(" "),
+                    fen: args[1..fen_end].join(" "),
                 }
             }
             _ => return Err(format!("Unrecognized position command: {}", args[0])),
@@ -111,8 +119,8 @@ impl UCICommand {
             PositionKind::StartPos if args.len() > 2 && args[1] == "moves" => {
                 Some(args[2..].iter().map(ToString::to_string).collect())
             }
-            PositionKind::Fen { .. } if args.len() > 8 && args[7] == "moves" => {
-                Some(args[8..].iter().map(ToString::to_string).collect())
+            PositionKind::Fen { .. } if args.len() > fen_end + 1 && args[fen_end] == "moves" => {
+                Some(args[fen_end + 1..].iter().map(ToString::to_string).collect())
             }
             _ => None,
         };
